@@ -22,7 +22,7 @@
        1 invalid latin-1 character     2 invalid integer character    3 illegal digit for base
        4 integer too large (u64)       5 exponent too large (i32)     6 EOF before end quote
        7 multi line string             8 incomplete multi-line comment 9 invalid float literal
-      10 negative exponent of integer 11 base not in 2..16           12 based literal without '#'
+      10 negative exponent of integer 11 base not in 2..16           12 based literal without closing delimiter (# or :)
       13 invalid bit string literal   14 illegal token               15 expecting identifier (tool directive)
       16 identifier empty (unreachable) 17 identifier must start with a letter
       18 consecutive underscores      19 invalid character (unreachable) 20 identifier ends with underscore
@@ -466,7 +466,10 @@ Section Lexer.
     | _ => stop Crash
     end.
 
-  Definition abs_based (p0 pos_after_initial : position) (initial : (N * list N) + terr)
+  (* based literal `base # digits [. digits] # [exponent]`; both '#' may be replaced by ':' (LRM 15.10,
+     commit bba3236): `delim` is the delimiter seen after the base (35 or 58), the closing one must be
+     the same character *)
+  Definition abs_based (delim : N) (p0 pos_after_initial : position) (initial : (N * list N) + terr)
     : M (kind * value) :=
     '(base, bt) <- of_result initial ;;
     rskip ;;;
@@ -475,14 +478,14 @@ Section Lexer.
     fres <- (if opt_is op 46 then rskip ;;; r <- try (parse_integer base false) ;; ret (Some r)
              else ret None) ;;
     op2 <- rpeek ;;
-    if opt_is op2 35 then
+    if opt_is op2 delim then
       rskip ;;;
       '(iv, it) <- of_result bres ;;
       ftxt <- (match fres with
                | Some r => '(_, ft) <- of_result r ;; ret (Some ft)
                | None => ret None
                end) ;;
-      let txt := bt ++ [35] ++ it ++ (match ftxt with Some ft => [46] ++ ft | None => [] end) ++ [35] in
+      let txt := bt ++ [delim] ++ it ++ (match ftxt with Some ft => [46] ++ ft | None => [] end) ++ [delim] in
       if negb (in_range 2 16 base) then throw (TErr p0 pos_after_initial 11)
       else
         op3 <- rpeek ;;
@@ -512,6 +515,17 @@ Section Lexer.
         end
     else e <- get_pos ;; throw (TErr p0 e 12).
 
+  (* colon_starts_based_literal: on a clone of the reader skip the ':' and peek; the ':' starts a based
+     literal iff an ASCII letter or digit follows (a peek error counts as "no"); the reader is not moved *)
+  Definition colon_lookahead : M (option N + terr) := rskip ;;; try rpeek.
+  Definition colon_starts_based_literal : M bool :=
+    fun st => match colon_lookahead st with
+              | (Ok (inl (Some n)), _) => (Ok (is_alnum n), st)
+              | (Ok _, _) => (Ok false, st)
+              | (Er _, _) => (Ok false, st)
+              | (Ab a, _) => (Ab a, st)
+              end.
+
   Definition abs_bit_string (p0 : position) (initial : (N * list N) + terr) : M (kind * value) :=
     '(iv, _) <- of_result initial ;;
     obs <- parse_base_specifier ;;
@@ -537,7 +551,10 @@ Section Lexer.
     | Some c =>
       if c =? 46 then abs_real st0 pos_after_initial initial
       else if c =? 101 then abs_int_exp p0 initial
-      else if c =? 35 then abs_based p0 pos_after_initial initial
+      else if c =? 35 then abs_based 35 p0 pos_after_initial initial
+      else if c =? 58 then
+        (b <- colon_starts_based_literal ;;
+         if b then abs_based 58 p0 pos_after_initial initial else abs_plain initial)
       else if is_bs_letter c then abs_bit_string p0 initial
       else abs_plain initial
     end.
@@ -554,7 +571,7 @@ Section Lexer.
     | Some c =>
       if c =? 46 then abs_real_gen false st0 pos_after_initial initial
       else if c =? 101 then abs_int_exp p0 initial
-      else if c =? 35 then abs_based p0 pos_after_initial initial
+      else if c =? 35 then abs_based 35 p0 pos_after_initial initial
       else if is_bs_letter c then abs_bit_string p0 initial
       else abs_plain initial
     end.
